@@ -28,6 +28,7 @@ struct Effect {
 	bool unspecified[2]{};  // valid but unspecified even on success (moved-from under unequal allocators)
 	bool expect_no_alloc       = false;  // zero allocate/deallocate events
 	bool expect_no_elem_events = false;  // zero element events of any kind
+	bool expect_no_elem_copies = false;  // zero element copy/default constructions and copy assignments (moves are not copies)
 	bool expect_base_unchanged = false;  // data_elements() of target 0 unchanged
 	bool is_ctor = false, is_dtor = false;
 	bool moves_elements = false;  // elements are moved: after a failure a written element may also be left moved-from
@@ -189,7 +190,7 @@ inline bool plan_effect(Model const& M, ModelTraits const& T, Op const& op, Effe
 			bn.moved_from = true;
 			e.elems = b.count();
 			if(a.arena == b.arena) {
-				e.expect_no_alloc = e.expect_no_elem_events = true;
+				e.expect_no_alloc = e.expect_no_elem_copies = true;  // "transfers the value without copying elements", "do not allocate"
 			} else {
 				var("other-arena");
 				e.unspecified[1] = true;
@@ -311,8 +312,7 @@ inline bool plan_effect(Model const& M, ModelTraits const& T, Op const& op, Effe
 			b.v.clear();
 			b.moved_from = true;
 			if(T.pocma || a0.arena == b0.arena) {
-				e.expect_no_elem_events = a0.count() == 0;  // the old elements of the target are destroyed, nothing else
-				e.expect_no_alloc       = false;             // the old block of the target is released
+				e.expect_no_elem_copies = true;  // the old elements of the target are destroyed and its block released; nothing is copied
 			} else {
 				e.unspecified[1] = true;
 				e.probe_id       = P_MOVE_ASSIGN_UNEQUAL_ALLOC;
@@ -324,8 +324,7 @@ inline bool plan_effect(Model const& M, ModelTraits const& T, Op const& op, Effe
 			MArr& b = tgt(1, D, op.b);
 			std::swap(a, b);
 			if(!T.pocs) std::swap(a.arena, b.arena);  // allocators stay
-			e.expect_no_alloc = true;
-			if(!T.static_arrays) e.expect_no_elem_events = true;
+			e.expect_no_alloc = true;  // "swap ... of resizable arrays do not allocate"; how the values are exchanged is not prescribed
 			if(a0.arena != b0.arena) e.probe_id = P_SWAP_OTHER_ARENA;
 			var(op.var ? "adl" : "member");
 		}
